@@ -363,6 +363,7 @@ def model (op : String) (args : List String) : String :=
     | some c, some i => showLookup (DynRealm.dynLookup c i)
     | _, _ => "bad-op"
   | "tcpstream", args => streamModel args
+  | "radlen", [h] => (match ofHex h with | some b => toString (Stream.checkedRadLength b) | none => "bad-op")
   | "decttl", [h] =>
     match ofHex h with
     | some v => let r := Ttl.decttl v; s!"{r.1} {toHex r.2}"
@@ -426,6 +427,14 @@ def model (op : String) (args : List String) : String :=
 def spec (op : String) (args impl : List String) : String :=
   match op, args, impl with
   | "tcpstream", args, _ => streamSpec args impl
+  | "radlen", [h], [r] =>
+    -- C16: a length field is accepted (positive result = that length) exactly when it is 20..4096
+    (match ofHex h, r.toInt? with
+     | some b, some r =>
+       let l := (b.getD 2 0).toNat * 256 + (b.getD 3 0).toNat
+       if 20 ≤ l && l ≤ 4096 then (if r == (l : Int) then "ok" else "bad C16:valid-length-field-not-returned-as-is")
+       else if r > 0 then "bad C16:invalid-length-field-accepted" else "ok"
+     | _, _ => "bad-op")
   | "dynrealm", [c, i], _ =>
     match ofHex c, ofHex i with
     | some c, some i => if impl.any (·.startsWith "crash") then "bad sanitizer-or-crash" else dynSpec c i impl
